@@ -8,13 +8,15 @@ for f in sorted(glob.glob(os.path.join(V, 'seeded', '*', 'meta.json'))):
     name = os.path.basename(os.path.dirname(f))
     checks = v.get('checks', {})
     cell = '; '.join(f"{p}: {c['result']}" + (f" ({', '.join(k+':'+n for k,n in c.get('broken', [])[:3])})" if c.get('broken') else '') for p, c in checks.items())
-    rows.append((name, m.get('property'), m.get('summary', '').replace('\n', ' ')[:160], m.get('needs', '').replace('\n', ' ')[:140], cell, m.get('after_strengthening', '')))
+    fr = m.get('first_run')
+    firstcell = '; '.join(f"{p}: {c['result']}" for p, c in fr.items()) if fr else cell
+    rows.append((name, m.get('property'), m.get('summary', '').replace('\n', ' ')[:160], m.get('needs', '').replace('\n', ' ')[:140], firstcell, (cell if fr else '')))
 out = ['# Seeded property-breaking changes and what catches them', '',
        'Each change was produced by a fresh sub-agent that saw only the property text and a scratch worktree; it compiles, passes the',
        'existing suite, and its demonstration fails with / passes without the change (re-confirmed by `bin/mutrun`). `caught-concrete` =',
        '`VIOLATION` with a concrete failing input from an independent monitor; `caught-no-failing-input` = only a theorem / expectation /',
        'correspondence broke; `missed` = the check printed OK.', '',
-       '| seeded change | prop | what it does | needs | result of `VERIF_REPO=<tree> bin/check` | after strengthening |', '|---|---|---|---|---|---|']
+       '| seeded change | prop | what it does | needs | first run of `VERIF_REPO=<tree> bin/check` | after strengthening (re-run) |', '|---|---|---|---|---|---|']
 for r in rows: out.append('| ' + ' | '.join(x.replace('|', '\\|') for x in r) + ' |')
 caught = sum(1 for r in rows if 'caught' in r[4].split(';')[0])
 out += ['', f'{len(rows)} confirmed changes; caught by the property\'s own check on first run: {caught}.']
